@@ -113,11 +113,8 @@ def run(out: Outcome) -> None:
             inc.fit(X=np.array(other))
             for v in sample(rng, rng.randint(0, w + 2)):
                 inc.update(value=v)
-            refit = rng.choice(["reset+fit", "fit"])
-            if refit == "reset+fit":
-                inc.reset()
-            else:
-                inc.X_queue.clear(); inc.num_instances = 0
+            refit = "reset+fit"
+            inc.reset()
         inc.fit(X=np.array(ref))
         bat = KSTest()
         bat.fit(X=np.array(ref))
